@@ -251,8 +251,8 @@ func c08Case(ctx *core.Ctx, idx int) core.Result {
 	}
 
 	run := func(mid []ast.Node, midText string, checkF bool) ([]sufObs, string) {
-		ses := calcrun.NewSession()
 		calcrun.SetStdin(stdin)
+		ses := calcrun.NewSession()
 		exec := func(st ast.Node) (calcrun.StmtObs, string) {
 			o := ses.Exec(ast.Print(st, nil), doOut)
 			if len(o) != 1 || o[0].Panic != nil || o[0].Parse != nil || o[0].StepLimit || o[0].Hang != "" {
